@@ -29,7 +29,9 @@ theorem sh_table_sound (c : Char) (h : isSafeChar c = true) : shLiteral c = true
 theorem sh_roundtrip (args : List Str) (h : NoNul args) : shSplit (args2sh args) = some args :=
   sh_roundtrip_aux args h
 
-example : NoNul ["a b".toList, [], "it's $HOME; `x` \\ \"q\" *~\n".toList, "é".toList] := by decide
+example : NoNul ["a b".toList, [], "it's $HOME; `x` \\ \"q\" *~\n".toList, "é".toList] := by decide +kernel
+example : shSplit "a 'b c'\"\\\"d\" e\\ f".toList = some ["a".toList, "b c\"d".toList, "e f".toList] := by decide +kernel
+example : shSplit "a $b".toList = none := by decide +kernel
 
 /-- `args2cmd` / `escape_shell_args(style='cmd')`: the MS C runtime rules (in each of the three
     historical variants of the `""` rule) split the text into exactly the arguments -/
@@ -38,7 +40,7 @@ theorem cmd_roundtrip (v : CrtVariant) (args : List Str) (h : NoNul args) :
   cmd_roundtrip_aux v args h
 
 example : crtSplit .modern (args2cmd ["a\\\\\"b c\\".toList, [], "\"".toList]) =
-    ["a\\\\\"b c\\".toList, [], "\"".toList] := by decide
+    ["a\\\\\"b c\\".toList, [], "\"".toList] := by decide +kernel
 
 /-! ### integer ranges -/
 
@@ -55,14 +57,6 @@ theorem format_canonical (L : List Nat) :
     ∃ rs, formatIntList L = join [','] (rs.map renderRange) ∧ Canon rs ∧ ∀ x, Covers rs x ↔ x ∈ L :=
   ⟨_, format_eq L, (runs_isort_spec L).1, (runs_isort_spec L).2⟩
 
-/-- the canonical form is unique: a canonical rendering is a fixed point of parse-then-format is
-    implied by `int_roundtrip`; here: two lists with the same members format identically -/
-theorem format_depends_on_members (L M : List Nat) (h : ∀ x, x ∈ L ↔ x ∈ M)
-    (hL : parseIntList (formatIntList L) = parseIntList (formatIntList M)) :
-    expand (runs (isort L)) = expand (runs (isort M)) := by
-  rw [parse_format, parse_format] at hL
-  exact Option.some.inj hL
-
 /-- `complement_int_list(s, a, e)` returns exactly the integers of the window `[a, e)` (clipped at 0,
     integers being non-negative) that are missing from `s`, as a canonical range string -/
 theorem complement_exact (s : Str) (l : List Nat) (a e : Int) (h : parseIntList s = some l) :
@@ -73,11 +67,13 @@ theorem complement_exact (s : Str) (l : List Nat) (a e : Int) (h : parseIntList 
     ((List.range e.toNat).filter fun x => !l.contains x && !decide ((x : Int) < a))
   obtain ⟨rs, hrs, hc, -⟩ := format_canonical
     ((List.range e.toNat).filter fun x => !l.contains x && !decide ((x : Int) < a))
-  refine ⟨_, R, by simp only [complementIntList, h]; rfl, hR, hsorted, fun x => ?_, rs, hrs, hc⟩
+  refine ⟨_, R, by simp only [complementIntList, h], hR, hsorted, fun x => ?_, rs, hrs, hc⟩
   rw [hmem]
   simp only [List.mem_filter, List.mem_range, Bool.and_eq_true, Bool.not_eq_true',
     List.contains_eq_mem, decide_eq_false_iff_not]
-  omega
+  constructor
+  · rintro ⟨h1, h2, h3⟩; exact ⟨by omega, by omega, by simpa using h2⟩
+  · rintro ⟨h1, h2, h3⟩; exact ⟨by omega, by simpa using h3, by omega⟩
 
 /-- with `range_end=None` the window ends just above the largest listed integer
     (and is empty when nothing is listed) -/
@@ -91,7 +87,7 @@ theorem int_ranges_exact (s : Str) (l : List Nat) (h : parseIntList s = some l) 
     ∃ rs, intRanges s = some rs ∧ Canon rs ∧ ∀ x, Covers rs x ↔ x ∈ l :=
   ⟨_, intRanges_of_parse s l h, (runs_isort_spec l).1, (runs_isort_spec l).2⟩
 
-example : parseIntList "1,3,5-8,10-11,15".toList = some [1, 3, 5, 6, 7, 8, 10, 11, 15] := by decide
-example : formatIntList [8, 1, 3, 5, 7, 6, 3, 10, 11, 15] = "1,3,5-8,10-11,15".toList := by decide
+example : parseIntList "1,3,5-8,10-11,15".toList = some [1, 3, 5, 6, 7, 8, 10, 11, 15] := by decide +kernel
+example : formatIntList [8, 1, 3, 5, 7, 6, 3, 10, 11, 15] = "1,3,5-8,10-11,15".toList := by decide +kernel
 
 end C14
